@@ -9,10 +9,22 @@ CONSTANT Prop
 C02(r) == CASE r.e = "Abnormal" -> r.oom /\ ~r.timeout
             [] r.e = "Probe" -> ~r.modified
             [] r.e = "Batch" -> r.crashes = 0 /\ r.timeouts = 0
-            [] OTHER -> TRUE
-C03(r) == (r.e = "Probe" /\ r.ok) => StructValid(r.sv)
+            [] r.e = "EbProbe" -> ~r.modified                        \* streams assembled from MC_EbDecoder rows (semantic faults)
+            [] r.e = "EbBatch" -> r.crashes = 0 /\ r.timeouts = 0
+            [] OTHER -> TRUE                                          \* "Nest": the probe returned (ok or Status) -- nothing more is demanded
+C03(r) == (r.e \in {"Probe", "EbProbe"} /\ r.ok) => StructValid(r.sv)
+\* Level B (drift, never a verdict): the real decoder against the predictions of module EbDecoder and the nesting rule of module Metadata.
+\*   predicted reject  => rejected (connectivity is decoded first; nothing later can accept what it refused)
+\*   predicted accept  => if the later stages accept too, the points and faces are the ones the model computed
+\*   predicted "ub"    => the decoder would index a table with an invalid id: it cannot come back with a record at all
+\*   nesting: a chain of D sub-metadata blocks has levels 0 .. D-1 (children of the root are level 0); refused when a level exceeds 1000
+EbDrift(r) == r.e = "EbProbe" =>
+   Drift(/\ (r.pk = "rej" => ~r.ok)
+         /\ ((r.pred = "acc" /\ r.ok) => (r.np = r.pred_np /\ r.faces = r.pred_faces))
+         /\ r.pk # "ub", "EbDecoder prediction")
+NestDrift(r) == r.e = "Nest" => Drift(r.ok = (r.depth - 1 <= 1000), "Metadata nesting limit")
 C18(r) == (r.e = "Probe" /\ r.allocs) => AllocBounded(r)
 Check(r) == CASE Prop = "C02" -> C02(r) [] Prop = "C03" -> C03(r) [] Prop = "C18" -> C18(r) [] OTHER -> FALSE
-Conforms == ti <= N => Check(Recs[ti])
+Conforms == ti <= N => (Check(Recs[ti]) /\ EbDrift(Recs[ti]) /\ NestDrift(Recs[ti]))
 Spec == ShardInit /\ [][ShardNext]_tvars
 =============================================================================
